@@ -9,6 +9,9 @@ Helper lemmas for C13 (version information).  Core-only.
 4. the reference writer read back (round trip).
 5. the queries as functions of the tree; their agreement.
 -/
+set_option linter.unusedSimpArgs false
+set_option linter.unnecessarySimpa false
+
 namespace Pelite.Version
 
 /-! ## 1. parse_tlv -/
@@ -235,11 +238,11 @@ theorem parseTlv_ok_ext {vlt : Vlt} {w : Sl} {t : Tlv} {r : Sl}
 on until the input is used up or an item is an error -/
 def items (vlt : Vlt) (w : Sl) : List Tlv :=
   if w.len = 0 then [] else
-  match h : parseTlv vlt w with
+  match _h : parseTlv vlt w with
   | .ok (t, r) => t :: items vlt r
   | _ => []
 termination_by w.len
-decreasing_by exact parseTlv_rest_lt h
+decreasing_by exact parseTlv_rest_lt _h
 
 /-- the loop body applied along a list of items -/
 def runSteps {σ : Type} (step : Tlv → σ → Out (σ × Bool)) : List Tlv → σ → Out σ
